@@ -4,3 +4,37 @@
 package informer
 
 //@ pred validInformer(ri) = ri != nil && ri.sharedResourceInformer != nil && ri.sharedResourceInformer.lister != nil && ri.informerWrapper != nil && ri.sharedResourceInformer.close != nil
+
+//@ pred validShared(s) = s != nil && s.lister != nil && s.close != nil && s.informer != nil
+
+// Representation invariant of the factory: an informer exists for a key exactly while its
+// subscription count is at least one.
+//@ pred factoryInv(f) = f != nil && f.refCount != nil && f.sharedInformers != nil && f.clientset != nil && f.clientset.resources != nil && f.clientset.dc != nil && (forall k string :: has(f.sharedInformers, k) == has(f.refCount, k)) && (forall k string :: has(f.refCount, k) ==> f.refCount[k] >= 1) && (forall k string :: has(f.sharedInformers, k) ==> validShared(f.sharedInformers[k]))
+
+//@ func SharedInformerFactory.Resource(f, apiVersion, resource) (ri, err)
+//@   requires factoryInv(f)
+//@   safety C13,C18
+//@   let key = resourceKey(apiVersion, resource)
+//@   at Run(inf, ch) [C18]: !old(has(f.sharedInformers, key)) && !closed(ch) && fresh(ch)
+//@   ensures [C18] factoryInv(f)
+//@   ensures [C18] err == nil ==> validInformer(ri) && has(f.sharedInformers, key) && ri.sharedResourceInformer == f.sharedInformers[key]
+//@   ensures [C18] err == nil ==> f.refCount[key] == old(ite(has(f.refCount, key), f.refCount[key], 0)) + 1
+//@   ensures [C18] err == nil && old(has(f.sharedInformers, key)) ==> f.sharedInformers[key] == old(f.sharedInformers[key]) && !called(Run)
+//@   ensures [C18] err == nil && !old(has(f.sharedInformers, key)) ==> count(Run) == 1 && fresh(f.sharedInformers[key])
+//@   ensures [C18] forall k string :: k != key ==> has(f.refCount, k) == old(has(f.refCount, k)) && f.refCount[k] == old(f.refCount[k]) && has(f.sharedInformers, k) == old(has(f.sharedInformers, k)) && f.sharedInformers[k] == old(f.sharedInformers[k])
+//@   ensures [C18] err != nil ==> has(f.refCount, key) == old(has(f.refCount, key)) && f.refCount[key] == old(f.refCount[key]) && has(f.sharedInformers, key) == old(has(f.sharedInformers, key)) && !called(Run)
+//@   ensures [C18,C17] !locked(f)
+
+//@ func SharedInformerFactory.Resource$1() ()
+//@   requires factoryInv(*f) && has((*f).refCount, *key)
+//@   safety C13,C18
+//@   ensures [C18] factoryInv(*f)
+//@   ensures [C18] old((*f).refCount[*key]) > 1 ==> (*f).refCount[*key] == old((*f).refCount[*key]) - 1 && has((*f).sharedInformers, *key) && closed(*stopCh) == old(closed(*stopCh))
+//@   ensures [C18] old((*f).refCount[*key]) <= 1 ==> !has((*f).refCount, *key) && !has((*f).sharedInformers, *key) && closed(*stopCh)
+//@   ensures [C18] forall k string :: k != *key ==> has((*f).refCount, k) == old(has((*f).refCount, k)) && (*f).refCount[k] == old((*f).refCount[k]) && has((*f).sharedInformers, k) == old(has((*f).sharedInformers, k)) && (*f).sharedInformers[k] == old((*f).sharedInformers[k])
+//@   ensures [C18,C17] !locked(*f)
+
+//@ func newResourceInformer(sri) (ri)
+//@   requires validShared(sri)
+//@   safety C13,C18
+//@   ensures [C18] validInformer(ri) && ri.sharedResourceInformer == sri && fresh(ri)
